@@ -484,3 +484,4 @@ MANIFEST = {
 MANIFEST["text"] += ' Registry options (on_redefinition, autoconvert modes) are among the probes that must be restored.'
 MANIFEST["text"] += ' Two nameless Context objects that differ only in their redefinitions, and activations failing on an unhashable keyword value, are among the events.'
 MANIFEST["text"] += " Decorated calls that raise, and contexts whose redefinition changes a unit's kind (scaled <-> offset) with a query touching both, are among the events."
+MANIFEST["text"] += ' A removal count of zero and a with-block naming no context are among the events.'
